@@ -43,6 +43,12 @@ def isWord (b : UInt8) : Bool :=
 /-- printable ASCII -/
 def isPrint (b : UInt8) : Bool := decide (32 ≤ b.toNat ∧ b.toNat ≤ 126)
 
+/-! ### prefix scanner -/
+def stripPrefix : Str → Str → Option Str
+  | [], s => some s
+  | _ :: _, [] => none
+  | a :: l, b :: s => if a == b then stripPrefix l s else none
+
 /-! ### number rendering -/
 def digitChar (d : Nat) : UInt8 := if d < 10 then UInt8.ofNat (48 + d) else UInt8.ofNat (87 + d)
 
@@ -80,27 +86,23 @@ def parseI64 (s : Str) : Option Nat := (parseNat 10 s).filter (· < two63)
 def parseU64Hex (s : Str) : Option Nat := (parseNat 16 s).filter (· < two64)
 
 /-- `strconv.ParseInt(s, 0, 64)` restricted to unsigned digit strings and `0x…`: a leading `0`
-makes the string octal (as in Go), `0x` hexadecimal. -/
+(followed by more) makes the string octal (as in Go), `0x` hexadecimal. -/
 def parseI64Base0 (s : Str) : Option Nat :=
   match s with
-  | [48] => some 0
-  | 48 :: 120 :: r => (parseNat 16 r).filter (· < two63)
-  | 48 :: 88 :: r => (parseNat 16 r).filter (· < two63)
-  | 48 :: r => (parseNat 8 r).filter (· < two63)
+  | b :: c :: r =>
+    if b.toNat == 48 then
+      (if c.toNat == 120 || c.toNat == 88 then (parseNat 16 r).filter (· < two63)
+       else (parseNat 8 (c :: r)).filter (· < two63))
+    else parseI64 s
   | _ => parseI64 s
 
 /-- `strconv.ParseUint("0x…", 0, 64)` -/
 def parseU64Base0 (s : Str) : Option Nat :=
-  match s with
-  | 48 :: 120 :: r => parseU64Hex r
-  | _ => none
+  match stripPrefix [48, 120] s with
+  | some r => parseU64Hex r
+  | none => none
 
 /-! ### scanners -/
-def stripPrefix : Str → Str → Option Str
-  | [], s => some s
-  | _ :: _, [] => none
-  | a :: l, b :: s => if a == b then stripPrefix l s else none
-
 def hasPrefix (l s : Str) : Bool := (stripPrefix l s).isSome
 
 def containsSub (l : Str) : Str → Bool
@@ -133,10 +135,7 @@ def fieldsAux : Str → Str → List Str
 def fields (s : Str) : List Str := fieldsAux s []
 
 /-! ### lines -/
-def dropCR (l : Str) : Str :=
-  match l.reverse with
-  | 13 :: r => r.reverse
-  | _ => l
+def dropCR (l : Str) : Str := if l.getLast? == some 13 then l.dropLast else l
 
 /-- `bufio.ScanLines` over the whole input (token-size limit not modelled: printed lines are
 kept below it by well-formedness). -/
@@ -186,11 +185,15 @@ def printFillers (fs : List Filler) : List Str := fs.map Filler.print
 `FindAllString` reports them); fuel = length. -/
 def findHexAux : Nat → Str → List Str
   | 0, _ => []
-  | _, [] => []
-  | f+1, 48 :: 120 :: r =>
-    let ds := r.takeWhile isHexLower
-    if ds.isEmpty then findHexAux f (120 :: r) else ds :: findHexAux f (r.dropWhile isHexLower)
-  | f+1, _ :: r => findHexAux f r
+  | f+1, s =>
+    match s with
+    | [] => []
+    | _ :: t =>
+      match stripPrefix [48, 120] s with
+      | some r =>
+        let ds := r.takeWhile isHexLower
+        if ds.isEmpty then findHexAux f t else ds :: findHexAux f (r.dropWhile isHexLower)
+      | none => findHexAux f t
 def findHex (s : Str) : List Str := findHexAux (s.length + 1) s
 
 def parseHexList : List Str → Option (List Nat)
